@@ -55,6 +55,91 @@ pub trait ParallelIterator: Sized + Send {
         C::from_par_iter(self)
     }
 
+    fn filter<F>(self, f: F) -> Filter<Self, F>
+    where
+        F: Fn(&Self::Item) -> bool + Sync + Send,
+    {
+        Filter { base: self, f }
+    }
+
+    fn filter_map<F, R>(self, f: F) -> FilterMap<Self, F>
+    where
+        F: Fn(Self::Item) -> Option<R> + Sync + Send,
+        R: Send,
+    {
+        FilterMap { base: self, f }
+    }
+
+    fn cloned<'a, T>(self) -> Map<Self, fn(&'a T) -> T>
+    where
+        T: 'a + Clone + Send + Sync,
+        Self: ParallelIterator<Item = &'a T>,
+    {
+        self.map(|x: &T| x.clone())
+    }
+
+    fn copied<'a, T>(self) -> Map<Self, fn(&'a T) -> T>
+    where
+        T: 'a + Copy + Send + Sync,
+        Self: ParallelIterator<Item = &'a T>,
+    {
+        self.map(|x: &T| *x)
+    }
+
+    fn count(self) -> usize {
+        self.collect_vec_ordered().len()
+    }
+
+    fn sum<S>(self) -> S
+    where
+        S: Send + std::iter::Sum<Self::Item>,
+    {
+        self.collect_vec_ordered().into_iter().sum()
+    }
+
+    fn reduce<OP, ID>(self, identity: ID, op: OP) -> Self::Item
+    where
+        OP: Fn(Self::Item, Self::Item) -> Self::Item + Sync + Send,
+        ID: Fn() -> Self::Item + Sync + Send,
+    {
+        self.collect_vec_ordered().into_iter().fold(identity(), |a, b| op(a, b))
+    }
+
+    fn any<P>(self, p: P) -> bool
+    where
+        P: Fn(Self::Item) -> bool + Sync + Send,
+    {
+        self.map(p).collect_vec_ordered().into_iter().any(|b| b)
+    }
+
+    fn all<P>(self, p: P) -> bool
+    where
+        P: Fn(Self::Item) -> bool + Sync + Send,
+    {
+        self.map(p).collect_vec_ordered().into_iter().all(|b| b)
+    }
+
+    fn find_any<P>(self, p: P) -> Option<Self::Item>
+    where
+        P: Fn(&Self::Item) -> bool + Sync + Send,
+    {
+        self.filter(p).collect_vec_ordered().into_iter().next()
+    }
+
+    fn max(self) -> Option<Self::Item>
+    where
+        Self::Item: Ord,
+    {
+        self.collect_vec_ordered().into_iter().max()
+    }
+
+    fn min(self) -> Option<Self::Item>
+    where
+        Self::Item: Ord,
+    {
+        self.collect_vec_ordered().into_iter().min()
+    }
+
     /// Items in task order (order preserving, like rayon's indexed collect).
     fn collect_vec_ordered(self) -> Vec<Self::Item> {
         let n = self.ntasks();
@@ -77,6 +162,22 @@ pub trait IndexedParallelIterator: ParallelIterator {
         Z::Iter: IndexedParallelIterator,
     {
         Zip { a: self, b: other.into_par_iter() }
+    }
+
+    fn enumerate(self) -> Enumerate<Self> {
+        Enumerate { base: self }
+    }
+
+    /// rayon: never split below `min` items per sequential job.  Modelled as rayon does it: the
+    /// index range is halved while both halves keep at least `min` items; every leaf is ONE task
+    /// whose items run in order on one worker.
+    fn with_min_len(self, min: usize) -> WithMinLen<Self> {
+        WithMinLen { base: self, min: min.max(1) }
+    }
+
+    /// rayon: upper bound on the job length; the stand-in already uses the finest splitting.
+    fn with_max_len(self, _max: usize) -> Self {
+        self
     }
 }
 
@@ -458,5 +559,151 @@ where
     type Prod = ZipProducer<A::Prod, B::Prod>;
     fn into_producer(self) -> Self::Prod {
         ZipProducer { a: self.a.into_producer(), b: self.b.into_producer() }
+    }
+}
+
+
+pub struct Filter<P, F> {
+    base: P,
+    f: F,
+}
+
+impl<P, F> ParallelIterator for Filter<P, F>
+where
+    P: ParallelIterator,
+    F: Fn(&P::Item) -> bool + Sync + Send,
+{
+    type Item = P::Item;
+    fn ntasks(&self) -> usize {
+        self.base.ntasks()
+    }
+    fn drive<C>(self, sink: C)
+    where
+        C: Fn(usize, P::Item) + Sync,
+    {
+        let f = self.f;
+        self.base.drive(|t, x| {
+            if f(&x) {
+                sink(t, x)
+            }
+        });
+    }
+}
+
+pub struct FilterMap<P, F> {
+    base: P,
+    f: F,
+}
+
+impl<P, F, R> ParallelIterator for FilterMap<P, F>
+where
+    P: ParallelIterator,
+    F: Fn(P::Item) -> Option<R> + Sync + Send,
+    R: Send,
+{
+    type Item = R;
+    fn ntasks(&self) -> usize {
+        self.base.ntasks()
+    }
+    fn drive<C>(self, sink: C)
+    where
+        C: Fn(usize, R) + Sync,
+    {
+        let f = self.f;
+        self.base.drive(|t, x| {
+            if let Some(y) = f(x) {
+                sink(t, y)
+            }
+        });
+    }
+}
+
+pub struct Enumerate<P> {
+    base: P,
+}
+
+pub struct EnumerateProducer<P> {
+    base: P,
+}
+
+impl<P: Producer> Producer for EnumerateProducer<P> {
+    type Item = (usize, P::Item);
+    fn len(&self) -> usize {
+        self.base.len()
+    }
+    fn take(&self, idx: usize) -> Self::Item {
+        (idx, self.base.take(idx))
+    }
+}
+
+impl<P: IndexedParallelIterator> ParallelIterator for Enumerate<P> {
+    type Item = (usize, P::Item);
+    fn ntasks(&self) -> usize {
+        self.base.ntasks()
+    }
+    fn drive<C>(self, sink: C)
+    where
+        C: Fn(usize, Self::Item) + Sync,
+    {
+        drive_producer(self.into_producer(), sink)
+    }
+}
+
+impl<P: IndexedParallelIterator> IndexedParallelIterator for Enumerate<P> {
+    type Prod = EnumerateProducer<P::Prod>;
+    fn into_producer(self) -> Self::Prod {
+        EnumerateProducer { base: self.base.into_producer() }
+    }
+}
+
+pub struct WithMinLen<P> {
+    base: P,
+    min: usize,
+}
+
+/// leaves of rayon's halving split of 0..len with a minimum leaf length
+pub fn min_len_leaves(len: usize, min: usize) -> Vec<std::ops::Range<usize>> {
+    fn rec(lo: usize, hi: usize, min: usize, out: &mut Vec<std::ops::Range<usize>>) {
+        let len = hi - lo;
+        let mid = len / 2;
+        if mid >= min && len - mid >= min {
+            rec(lo, lo + mid, min, out);
+            rec(lo + mid, hi, min, out);
+        } else {
+            out.push(lo..hi);
+        }
+    }
+    let mut out = vec![];
+    if len > 0 {
+        rec(0, len, min, &mut out);
+    }
+    out
+}
+
+impl<P: IndexedParallelIterator> ParallelIterator for WithMinLen<P> {
+    type Item = P::Item;
+    fn ntasks(&self) -> usize {
+        // (= number of buckets for ordered collection: items are reported under their own index)
+        self.base.ntasks()
+    }
+    fn drive<C>(self, sink: C)
+    where
+        C: Fn(usize, Self::Item) + Sync,
+    {
+        let min = self.min;
+        let p = self.base.into_producer();
+        let leaves = min_len_leaves(p.len(), min);
+        verif::run(leaves.len(), &|t| {
+            for idx in leaves[t].clone() {
+                sink(idx, p.take(idx));
+            }
+        });
+    }
+}
+
+impl<P: IndexedParallelIterator> IndexedParallelIterator for WithMinLen<P> {
+    type Prod = P::Prod;
+    fn into_producer(self) -> Self::Prod {
+        self.base.into_producer()
     }
 }
